@@ -320,7 +320,12 @@ def generate(tier, seed):
             for c in codes:
                 if tier == "quick" and (m != 3413 or chr(c) not in "({[rRtcs0Nil"):
                     continue
-                obs.append(payload_ob(m, t, False, min(4, kcap(c, tier)), tier, child=prefix + [c]))
+                kk = min(4, kcap(c, tier))
+                if t == ord("{"):
+                    # a dict keeps reading key/value type codes until NULL: only the child's own fixed-size payload
+                    # may be symbolic, or the next type code would be (256 paths per byte)
+                    kk = min(kk, {"N": 0, "T": 0, "F": 0, ".": 0, "S": 0, "0": 0, "z": 1, "Z": 1, ")": 1, "f": 1, "{": 0}.get(chr(c), 4))
+                obs.append(payload_ob(m, t, False, kk, tier, child=prefix + [c]))
     for kind in ("all16", "short", "zero"):
         obs.append(magic_ob(kind))
     for t in "([<>{sutaAzZlf":
